@@ -185,7 +185,7 @@ def run(ctx):
                 "expected consensus)")
     ctx.assumptions = ["weighted support = normalised exp(max recorded score) x count per distinct tree"]
     shards = 16
-    tasks = [{"seed": ctx.seed, "shard": i, "count": 12 if quick else 150} for i in range(shards)]
+    tasks = [{"seed": ctx.seed, "shard": i, "count": 12 if quick else 600} for i in range(shards)]
     ctx.map("checks.c16", "consensus_task", tasks, timeout=3000)
     if ctx.counters.get("command_outputs", 0) < 200 or ctx.counters.get("cases_nothing_retained", 0) < 3:
         ctx.inconc("too few consensus outputs / no empty consensus observed")
